@@ -114,7 +114,17 @@ def check(ctx: Ctx) -> list[RuleResult]:
     CANT = "self._fraction_expired == self.CANT_EXPIRE"
     LIFE = "self._pkt._lifespan"
     LIFE_F = "self._pkt._lifespan is False"  # the same test when the lifespan is first read into a local
-    if CANT not in tabx.atoms or (LIFE not in tabx.subjects and LIFE_F not in tabx.atoms):
+    if CANT not in tabx.atoms:
+        # the memo's "cannot expire" answer is keyed on something other than equality with the sentinel: which test of the memoised
+        # fraction lets _expired answer False without recomputing? a *computed* fraction can satisfy an inequality (it is negative
+        # during the 3 s grace), and would then be latched as "never expires"
+        lax = sorted({k for a, r in tabx.rows if r is False and not a["__effects__"] and a.get("self._fraction_expired", "?") is not None for k, v in a.items() if v is True and isinstance(k, str) and "self._fraction_expired" in k and k != "self._fraction_expired"})
+        if lax:
+            r2.fail(f"{ex.short}:cant-expire-test-not-the-sentinel", ex.loc(), f"Message._expired answers 'not expired' from the memo under `{lax[0]}` instead of equality with the CANT_EXPIRE sentinel: a fraction computed inside the 3 s grace window is negative too, so a message first looked at right after it arrived is latched as never expiring")
+            out.append(r2)
+            return out
+        raise AnalysisError(f"Message._expired: expected tests not found (atoms={tabx.atoms}, subjects={list(tabx.subjects)})")
+    if LIFE not in tabx.subjects and LIFE_F not in tabx.atoms:
         raise AnalysisError(f"Message._expired: expected tests not found (atoms={tabx.atoms}, subjects={list(tabx.subjects)})")
     # latch: once a verdict is memoised as expired (fraction >= HAS_EXPIRED) or cannot-expire, it is returned without recomputation
     # (no call on that path) - expiry never un-happens. Read off the same table.
@@ -187,6 +197,19 @@ def check(ctx: Ctx) -> list[RuleResult]:
         r3.ok({"lifespan_rows": n_rows, "types": "timedelta | False | None"})
     else:
         r3.fail("CODES_SCHEMA:lifespan-rows", repo.mod("ramses_tx.ramses").rel, f"lifespan rows not foldable to timedelta|False|None: {badrows[:4]} ({n_rows} rows)")
+    # "each message has a lifetime fixed by its kind": the lifetime is written once, by the packet's constructor from pkt_lifespan();
+    # nobody else re-writes it (a lifetime adjusted later from other traffic - the last sync countdown, say - depends on history)
+    r3.instances += 1
+    r3.nontrivial += 1
+    lw = [(g, n) for g in repo.funcs.values() for n in own_nodes(g.node) if isinstance(n, ast.Attribute) and n.attr == "_lifespan" and isinstance(n.ctx, (ast.Store, ast.Del))]
+    bad_lw = [(g, n) for g, n in lw if not (g.qualname == "ramses_tx.packet.Packet.__init__" and isinstance(n.value, ast.Name) and n.value.id == "self")]
+    if not lw:
+        raise AnalysisError("no write of Packet._lifespan found")
+    if bad_lw:
+        g, n = bad_lw[0]
+        r3.fail(f"{g.short}:lifespan-rewritten", g.loc(n), f"{g.short} re-writes a packet's lifetime (`{norm(getattr(n, 'parent', n))[:60]}`): the lifetime then depends on other traffic/state instead of the message's kind, so a message can be treated as expired before its kind's lifetime has passed")
+    else:
+        r3.ok({"writers_of__lifespan": [g.short for g, _ in lw]})
     out.append(r3)
 
     # ---- R4 ---------------------------------------------------------------------------
